@@ -25,6 +25,10 @@ type pci struct {
 	nilOf ssa.Value
 	why   string // for nil: why the value may be nil
 	key   string
+	// set when a length precondition on the function's slice parameters makes the site safe and
+	// holds at some call sites only: the callers where it could not be shown
+	openSites []ssa.CallInstruction
+	pre       string
 }
 
 // descVN renders a number compactly for keys and messages.
@@ -830,6 +834,9 @@ func (pe *PEngine) discharge(p *pci) (bool, []string, string) {
 	if ok, why := pe.liftToCallers(p, failedGoals); ok {
 		return true, []string{why}, ""
 	}
+	if ok, why := pe.liftWithPrecondition(p, failedGoals); ok {
+		return true, []string{why}, ""
+	}
 	return false, fs.strings(), "cannot prove: " + strings.Join(failed, "; ")
 }
 
@@ -989,6 +996,74 @@ func (pe *PEngine) liftToCallers(p *pci, goals []*lin) (bool, string) {
 		return false, ""
 	}
 	return true, fmt.Sprintf("precondition on parameters holds at all %d call sites in the module", n)
+}
+
+// liftWithPrecondition: an unexported function indexes one slice parameter with a position taken
+// from another (dst[i] for i ranging over src). The site is safe under a length precondition
+// len(pa) >= len(pb); the candidate that makes every open goal provable inside the function is
+// then required at the call sites. Callers where it cannot be shown are recorded on the site (the
+// reviewed arguments of trusted_sites.json may cover the construct in their terms).
+func (pe *PEngine) liftWithPrecondition(p *pci, goals []*lin) (bool, string) {
+	if p.fn.Object() != nil && p.fn.Object().Exported() {
+		return false, ""
+	}
+	pf := pe.pf(p.fn)
+	var slices []int
+	for i, prm := range p.fn.Params {
+		if _, ok := prm.Type().Underlying().(*types.Slice); ok {
+			slices = append(slices, i)
+		}
+	}
+	node := pe.P.CG().Nodes[p.fn]
+	if node == nil || len(slices) < 2 {
+		return false, ""
+	}
+	for _, a := range slices {
+		for _, b := range slices {
+			if a == b {
+				continue
+			}
+			la := pf.linOf(pf.mkLen(pf.get(p.fn.Params[a])))
+			lb := pf.linOf(pf.mkLen(pf.get(p.fn.Params[b])))
+			pre := la.sub(lb)
+			okAll := true
+			for _, g := range goals {
+				if !pf.proveAt(p.ins.Block(), pgoal{l: g}, []fact{{l: pre, why: "precondition"}}, 0) {
+					okAll = false
+					break
+				}
+			}
+			if !okAll {
+				continue
+			}
+			// the precondition at the call sites
+			n := 0
+			var open []ssa.CallInstruction
+			for _, e := range node.In {
+				caller := e.Caller.Func
+				if !inScope(pkgPathOf(caller)) || e.Site == nil {
+					continue
+				}
+				n++
+				cpf := pe.pf(caller)
+				args := e.Site.Common().Args
+				cg := cpf.linOf(cpf.mkLen(cpf.get(args[a]))).sub(cpf.linOf(cpf.mkLen(cpf.get(args[b]))))
+				if !cpf.proveAt(e.Site.Block(), pgoal{l: cg}, nil, 0) {
+					open = append(open, e.Site)
+				}
+			}
+			if n == 0 {
+				return false, ""
+			}
+			desc := fmt.Sprintf("len(%s) >= len(%s)", p.fn.Params[a].Name(), p.fn.Params[b].Name())
+			if len(open) == 0 {
+				return true, fmt.Sprintf("safe under the precondition %s, which holds at all %d call sites in the module", desc, n)
+			}
+			p.openSites, p.pre = open, desc
+			return false, ""
+		}
+	}
+	return false, ""
 }
 
 // liftNilToCallers: an unexported function dereferences a value that is a function of its
